@@ -7,6 +7,8 @@ CONSTANTS
     PerNameOnSuccess = TRUE
     ListNamesCanonical = TRUE
     FindPrefersDirectChild = TRUE
+    NonRegularRefused = TRUE
+    ExcuseNonRegular = FALSE
     ExcuseMisplaced = FALSE
     ExcuseDecoy = FALSE
 SPECIFICATION Spec
